@@ -80,6 +80,27 @@ def gen(seed, tier):
                 dirty.append(f)
             cases.append(H("C13-u%d-%d-a" % (w, part), {}, [blob(0, b"\n".join(clean) + b"\n")]))
             cases.append(H("C13-u%d-%d-b" % (w, part), {}, [blob(0, b"\n".join(dirty) + b"\n")]))
+    # over-long lines whose tail after 2^k bytes is a well-formed frame, and frames whose first digit is replaced by a sign or
+    # radix prefix (what a numeric parser would accept): each between accepted frames, file source
+    pool = r.sample(ICAOS, 3)
+    specials = []
+    for n_ in (1024, 4096, 8192, 16384, 32768, 65536, 131072):
+        for fill in (b"A", b"z", b"0"):
+            specials.append(fill * n_ + g.f_df17().encode())
+            specials.append(fill * n_ + ("%012X" % r.getrandbits(48) + g.f_df17()).encode())
+    for pre in ("+", "-", "+0", "0x", " +", "\t+"):
+        for mk in (lambda: g.f_short(0), lambda: g.f_short(4), lambda: g.f_short(5), lambda: g.f_df17(), lambda: g.f_df11()):
+            specials.append((pre + mk()[1:]).encode())
+    specials = [x for x in specials if pyspec.frame_of_line(x) is None]
+    step = 1
+    for part in range(0, len(specials), 12 * step):
+        clean, dirty = [], []
+        for j in specials[part:part + 12 * step:step]:
+            f = g.any_frame(r.choice(pool)).encode()
+            dirty += [j, f]
+            clean.append(f)
+        cases.append(H("C13-v%d-a" % part, {}, [blob(0, b"\n".join(clean) + b"\n")]))
+        cases.append(H("C13-v%d-b" % part, {}, [blob(0, b"\n".join(dirty) + b"\n")]))
     # junk between frames of other aircraft while one aircraft is stale: the sweep must come after the same
     # number of ACCEPTED frames in both streams (junk does not count)
     for i in range(60 if tier == "quick" else 600):
